@@ -57,6 +57,15 @@ def fn_ob(prop: str, c: vc.Contract, callees: Dict[str, vc.Contract] = None, cal
                     code = None
                 if code:
                     rep = rp.replay_dict(code, expected or c.ensures)
+            if rep is None and fallback is not None:
+                # look for a concrete failing input with the bounded oracle of the same contract
+                try:
+                    fbo = fallback()
+                    if fbo.status == "bounded-fail":
+                        rep = fbo.replay
+                        model = {"solver_model": model, "failing_case_found_by_enumeration": fbo.cex}
+                except Exception:
+                    pass
             fk = (finding_keys or {}).get(n0.split("#")[0], "")
             return core.refuted("z3", f"obligation {n0} fails: {d.get('detail','')[:200]} | counter-model {json.dumps(model, default=str)[:400]}",
                                 cex={"obligation": n0, "model": model, "all_failed": bad}, replay=rep, finding_key=fk,
@@ -78,6 +87,17 @@ def _lookup(ns, qualname):
     for p in qualname.split(".")[1:]:
         obj = getattr(obj, p)
     return obj
+
+
+def _generic_case_replay(check, case):
+    """python text re-running a module-level check function on one enumerated case (if the case has an eval-able repr)"""
+    try:
+        if eval(repr(case)) != case or "<" in check.__qualname__:
+            return None
+    except Exception:
+        return None
+    return (f"import importlib\nm = importlib.import_module({check.__module__!r})\n"
+            f"OK, OBSERVED = m.{check.__name__}({case!r})\nOK = bool(OK)")
 
 
 def enum_ob(obid: str, functions: List[str], cases: Callable[[], Iterable[Any]], check: Callable[[Any], tuple],
@@ -106,7 +126,9 @@ def enum_ob(obid: str, functions: List[str], cases: Callable[[], Iterable[Any]],
                 if replay_code is not None:
                     rep = rp.replay_dict(replay_code(case), expected)
                 else:
-                    rep = {"code": None, "expected": expected, "observed": obs, "reproduced": True}
+                    code = _generic_case_replay(check, case)
+                    rep = rp.replay_dict(code, expected or desc) if code else \
+                        {"code": None, "expected": expected, "observed": obs, "reproduced": True}
                 return core.bounded_fail(f"case {case!r:.300}: {obs}", cex={"case": repr(case)[:1000]}, replay=rep,
                                          finding_key=finding_key(case) if finding_key else "", seconds=time.time() - t0, queries=n)
         if n == 0:
